@@ -1,18 +1,120 @@
 import OmbottModel.Model.WsgiConc
-import OmbottModel.Lemmas.TsProps
+import OmbottModel.Lemmas.TsPropsMachine
+import OmbottModel.Lemmas.WsgiConcRun
 /-!
 C10 — Application objects in one process are independent of each other.
-Property theorems only; helper lemmas live in `Lemmas/TsProps.lean`.
+Property theorems only; helper lemmas live in `Lemmas/TsProps*.lean`, `Lemmas/WsgiConcRun.lean`.
+
+An operation is `(thread, application, atomic step)`.  A sequence of operations is at once an
+interleaving of any number of threads (the sequence is the global order, every element carries its
+thread), a nesting (the steps of `B.__call__` sit between two steps of a handler of `A`, on the same
+thread), `Request.copy()` (`newCopy`, `initHead (.copy n)` …) and the construction of further
+applications (`initHead .request` … of a fresh application id).
 -/
 namespace Ombott.TsProps
 open Py
 
-/-- tie to the source: every attribute the serving code and the handlers touch on `app.request`
-is in the generated thread-local list of `Request`, and likewise for `app.response` -/
-theorem served_attrs_thread_local :
-    (∀ k ∈ ["environ", "_env_get"], k ∈ propsOf .request) ∧
-    (∀ k ∈ ["_status_line", "_status_code", "_headers", "_cookies", "body"], k ∈ propsOf .response) ∧
-    Gen.headerDictTsThreadLocal = true ∧ Gen.storesAreThreadLocal = true := by
+/-- **C10** (every set of applications, every operation sequence incl. copy / construct / nested,
+on one thread or on several): what the operations of application `a` read and are answered is what
+they are answered when all operations of the other applications are deleted. -/
+theorem multi_app_noninterference (ops : List Op) (a : AppId) :
+    readsOf .perInstance a Heap.empty ops =
+      (runOps .perInstance Heap.empty (ops.filter (fun op => op.app = a))).2 :=
+  readsOf_eq_filtered a ops Heap.empty Heap.empty (Agree.refl _) (Own.empty _) (Own.empty _)
+
+/-- **C10 for adaptive programs** (the programs the driver runs: served requests whose handlers may
+call other applications, copy their request, construct applications): for every assignment of
+programs to threads and every interleaving, the results of the steps made in application `a`, as
+logged, are what replaying only those steps from process start gives. -/
+theorem multi_app_noninterference_machine (progs : ThreadId → Prog) (sched : List ThreadId) (a : AppId) :
+    (((run .perInstance (Machine.start progs) sched).log.filter (fun e => e.app = a)).map (·.res)) =
+      (runOps .perInstance Heap.empty
+        (((run .perInstance (Machine.start progs) sched).log.map Event.op).filter (fun op => op.app = a))).2 := by
+  have hl : LogOk .perInstance Heap.empty (run .perInstance (Machine.start progs) sched) :=
+    run_logOk _ _ _ _ (by simp [LogOk, Machine.start, Machine.on, runOps])
+  rw [← multi_app_noninterference, readsOf_log]
+  rw [hl]
+
+/-- the same for the event-level schedules the driver replays -/
+theorem multi_app_noninterference_events (progs : ThreadId → Prog) (evs : List WsgiConc.Ev) (a : AppId) :
+    (((WsgiConc.runEvents .perInstance (Machine.start progs) evs).1.log.filter (fun e => e.app = a)).map (·.res)) =
+      (runOps .perInstance Heap.empty
+        (((WsgiConc.runEvents .perInstance (Machine.start progs) evs).1.log.map Event.op).filter
+          (fun op => op.app = a))).2 := by
+  rw [WsgiConc.runEvents_eq_run]
+  exact multi_app_noninterference_machine progs _ a
+
+/-- tie to the source: the generated table still says that the stores and `HeaderDict._ts` are
+`threading.local` objects and that the decorated attribute lists are the ones the model's
+`Request.__init__` / `Response.__init__` assign -/
+theorem ts_tables_as_modelled :
+    Gen.requestTsProps = ["environ", "_env_get"] ∧
+    Gen.responseTsProps = ["_status_line", "_status_code", "_headers", "_cookies", "body"] ∧
+    Gen.headerDictTsThreadLocal = true ∧ Gen.storesAreThreadLocal = true ∧
+    Gen.requestStoreName = "_ts_props" ∧ Gen.responseStoreName = "_ts_props" := by
   decide
+
+/-- tie to the source: every plain (not thread-local) slot or module object that the probe saw
+touched while serving was left unchanged or rewritten with equal content -/
+theorem multi_app_shared_objects_read_only :
+    ∀ x ∈ Gen.sharedTouched, x.2.2 = "read-only" ∨ x.2.2 = "idempotent" := by
+  decide
+
+section Witness
+/-! ### what the theorem excludes: the decorator before commit 79b4118 (`tsPropsShared`)
+
+Thread 0 constructs application 1, gives its request an environ with `PATH_INFO = /one`, then does
+the same for application 2 with `/two`; then a handler of application 1 reads
+`request.environ['PATH_INFO']`. -/
+
+def witnessOps : List Op :=
+  [⟨0, 1, .initHead .request⟩, ⟨0, 1, .initNone .request "environ"⟩,
+   ⟨0, 1, .dNew 0 [("PATH_INFO", .str "/one")]⟩, ⟨0, 1, .fset .request "environ" (.reg 0)⟩,
+   ⟨0, 2, .initHead .request⟩, ⟨0, 2, .initNone .request "environ"⟩,
+   ⟨0, 2, .dNew 0 [("PATH_INFO", .str "/two")]⟩, ⟨0, 2, .fset .request "environ" (.reg 0)⟩,
+   ⟨0, 1, .fget .request "environ" 1⟩, ⟨0, 1, .dOp 1 (.get "PATH_INFO")⟩]
+
+/-- with the closure cell shared per class, application 1 reads application 2's path -/
+example : (readsOf tsPropsShared 1 Heap.empty witnessOps).getLast? = some (.val (.str "/two")) := by
+  decide
+
+/-- deleting application 2's operations it reads its own: the pre-fix variant violates the statement -/
+example : readsOf tsPropsShared 1 Heap.empty witnessOps ≠
+    (runOps tsPropsShared Heap.empty (witnessOps.filter (fun op => op.app = 1))).2 := by
+  decide
+
+/-- the current decorator on the same operations -/
+example : (readsOf .perInstance 1 Heap.empty witnessOps).getLast? = some (.val (.str "/one")) := by
+  decide
+
+end Witness
+
+section NonVacuity
+open WsgiConc
+
+/-- a handler of application 1 that calls application 2 in the middle (nested serve), as the driver
+runs it -/
+def nestedExample : List Item :=
+  [.construct 1, .construct 2,
+   .serve (.mk 1 [("PATH_INFO", .str "/a"), ("REQUEST_METHOD", .str "GET")]
+     (.handler [.path, .nested (.mk 2 [("PATH_INFO", .str "/b"), ("REQUEST_METHOD", .str "GET")]
+        (.handler [.path] (.ret "b"))), .path] (.ret "a")))]
+
+/-- the run is not trivial: application 1's handler reads `/a` before and after the nested call -/
+example :
+    ((((runEvents .perInstance (Machine.start fun t => if t = 0 then threadProg nestedExample else .done)
+      [.finish 0]).1.threads 0).out.map (·.2)).filter (·.startsWith "r:"))
+      = ["r:s/a", "r:s/b", "r:s/a"] := by
+  decide +kernel
+
+/-- the same arrangement with the pre-fix decorator: after the nested call the handler of
+application 1 reads application 2's path (the reproduced defect #11, DESIGN.md section 7) -/
+example :
+    ((((runEvents tsPropsShared (Machine.start fun t => if t = 0 then threadProg nestedExample else .done)
+      [.finish 0]).1.threads 0).out.map (·.2)).filter (·.startsWith "r:"))
+      = ["r:s/a", "r:s/b", "r:s/b"] := by
+  decide +kernel
+
+end NonVacuity
 
 end Ombott.TsProps
